@@ -13,7 +13,7 @@ func PlanFor(prop, tier string) (*Plan, error) {
 	quick := tier != "thorough"
 	capS := 600
 	if quick {
-		capS = 140
+		capS = 160
 	}
 	p := &Plan{Prop: prop, Tier: tier, Level: "model_checking", TimeCapS: capS, PrefixDepth: 2,
 		Assume: []string{trustNote, "values outside the stated alphabets and budgets are not covered"}}
@@ -52,10 +52,11 @@ func PlanFor(prop, tier string) (*Plan, error) {
 		p.Monitors = func() []Monitor { return []Monitor{NewC06()} }
 		p.Rule = "every sequence of fixed-price bids (both denominations, allow-listed and outsider accounts, amounts that exactly exhaust / exceed the remainder or convert to zero) within the budget; each decision is compared in both directions with the reference predicate and the published remainder with offered minus accepted in every state; non-trivial = distinct (reason, bidder, denom, amount, price, remainder) decisions"
 	case "C08":
-		p.Scenarios = []*Scenario{S1a(tier, true), S2a(tier, false), S3(tier, false), S2c(tier, "0.5", 0), S12(tier), S14(tier)}
+		p.Scenarios = []*Scenario{S1a(tier, true), S2a(tier, false), S3(tier, false), S2c(tier, "0.5", 0), S12(tier)}
 		for _, sc := range p.Scenarios {
 			sc.withRejectsTerminal()
 		}
+		p.Scenarios = append(p.Scenarios, S14(tier)) // no rejection representatives here: 104 auctions x every status would dominate the cost
 		p.Monitors = func() []Monitor { return []Monitor{NewC08(), NewC12()} }
 		p.Rule = "lifecycle scenarios with blocks before / exactly at / after every start, end, extended end and release instant (jumps and +1h ticks), bids / modifications / cancels attempted in every status; every auction's status and end times after every transition are compared with the reference step function; non-trivial = distinct (pre-state, step) pairs in which a lifecycle step happened"
 	case "C12":
